@@ -8,6 +8,7 @@
 From V Require Import Base.Bits Gen.Seq Model.SeqBlocks Spec.C09.
 From V Require Import Proofs.C09.Reg Proofs.C09.Counters Proofs.C09.ModCounter Proofs.C09.Delay Proofs.C09.Mem Proofs.C09.Shift Proofs.C09.SpecSanity Proofs.C09.DualPort.
 From V Require Import Gen.WireOps Model.SimKernel Model.Trace Spec.C04 Spec.C05 Proofs.C09.Netlist Proofs.C09.NetlistDump.
+From V Require Import Proofs.C09.NetlistDelay Proofs.C09.NetlistDelayDump.
 
 (* ---- Reg: from construction on and after every edge, q is the state of the reference machine (reset = 1 > enable <> 0 >
    hold) started at reset_value mod 2^w, for every width, reset value (also negative / oversized: stored unmasked, shown
@@ -292,6 +293,87 @@ Example C09_treg_design_is_dump :
 Proof. repeat split; reflexivity. Qed.
 
 
+(* ==== DelayLine: a netlist whose SIZE depends on a parameter.  `delayline_design w wo we wr he hr delay` (Proofs/C09/NetlistDelay.v)
+   is a HAND-WRITTEN recursion over `delay` producing the chain of Reg leaves in the shape py/netlist.py dumps a live DelayLine
+   (wires: 0 clk, 1 a, en?, reset?, r, then r0 .. r{delay-1}; one Buf; `delay` Reg leaves on one un-gated driver, no driver for
+   delay 0; leaves = the REGENERATED Gen functions); w = width of a and of the chain, wo = width of r, we / wr = widths of en / reset.
+   `delayline_net_run ... delay h` = power-up (all wires 0, every Reg.__init__'s put of 0, propagateAll) followed, per history entry
+   (a, e, r), by the pokes of the existing ports and Simulator.clk(1).  Proved by induction over the netlist (clockAll over the chain,
+   settling of the pending values) for EVERY delay, width (no guard), port configuration and history. *)
+Theorem C09_delayline_netlist_refines : forall w wo we wr (he hr : bool) (delay : nat) (h : list (Z * Z * Z)),
+  let s := delayline_net_run w wo we wr he hr delay h in
+  let cs := run (delay_m w he hr) (delay_init delay) (map (delayline_seen w we wr) h) in
+  skipn (S (dl_r he hr)) (vals s) = map cell_q cs /\
+  length (vals s) = (S (dl_r he hr) + delay)%nat /\
+  rd (vals s) (dl_r he hr) = delay_out wo cs (dl_a_last w h) /\
+  sts s = map st_of cs /\ pend s = [].
+Proof. exact delayline_netlist_refines. Qed.
+(* the combinational read the harness makes before an edge: poke a_now on a, propagateAll, read r *)
+Theorem C09_delayline_netlist_peek : forall w wo we wr (he hr : bool) (delay : nat) (h : list (Z * Z * Z)) a_now,
+  let D := delayline_design w wo we wr he hr delay in
+  let s := delayline_net_run w wo we wr he hr delay h in
+  let cs := run (delay_m w he hr) (delay_init delay) (map (delayline_seen w we wr) h) in
+  rd (propagateAll D (vals (poke D s 1%nat a_now))) (dl_r he hr) = delay_out wo cs (Wire_put w a_now).
+Proof. exact delayline_net_peek. Qed.
+(* ... hence, with C09_delayline_refines / C09_delayline_cells, the netlist follows the reference machine (the log of the samples taken
+   at enabled edges since the last reset edge) on the values the port wires show *)
+Theorem C09_delayline_netlist_spec : forall w wo we wr (he hr : bool) (delay : nat) (h : list (Z * Z * Z)) a_now, 0 <= w -> 0 <= wo ->
+  let D := delayline_design w wo we wr he hr delay in
+  let s := delayline_net_run w wo we wr he hr delay h in
+  let hs := map (delayline_seen w we wr) h in
+  rd (propagateAll D (vals (poke D s 1%nat a_now))) (dl_r he hr) =
+    delay_spec_out w wo delay (run (delay_log he hr) [] hs) (Wire_put w a_now) /\
+  rd (vals s) (dl_r he hr) = delay_spec_out w wo delay (run (delay_log he hr) [] hs) (dl_a_last w h) /\
+  skipn (S (dl_r he hr)) (vals s) = map (fun k => nth k (run (delay_log he hr) [] hs) 0 mod 2 ^ w) (seq 0 delay).
+Proof. exact delayline_netlist_spec. Qed.
+Theorem C09_delayline_netlist_wellformed : forall w wo we wr (he hr : bool) (delay : nat),
+  let D := delayline_design w wo we wr he hr delay in
+  Spec.C05.topo (combs D) /\ ordered (combs D) /\ single_driver (combs D) /\ registered_once D /\ single_writer D /\ outs_nodup D.
+Proof. exact delayline_design_wellformed. Qed.
+Theorem C09_delayline_netlist_settled : forall w wo we wr (he hr : bool) (delay : nat) (h : list (Z * Z * Z)),
+  settled (delayline_design w wo we wr he hr delay) (vals (delayline_net_run w wo we wr he hr delay h)).
+Proof. exact delayline_net_settled. Qed.
+Theorem C09_delayline_netlist_step_is_clk_cycle : forall w wo we wr (he hr : bool) (delay : nat) s i,
+  let D := delayline_design w wo we wr he hr delay in
+  let sp := fold_left (fun s p => poke D s (fst p) (snd p)) (delayline_pokes he hr i) s in
+  delayline_net_step w wo we wr he hr delay s i =
+  clk_cycle D {| vals := propagateAll D (vals sp); pend := pend sp; sts := sts sp; total := total sp |}.
+Proof. exact delayline_net_step_is_clk_cycle. Qed.
+(* per-run sanity (vm_compute): the recursive term under the kernel, 4-bit data, 3-bit output, 2-bit control wires, delays 0..4, all port
+   configurations, equals the block model row by row on r, the chain wires and the combinational peek; expected rows written out *)
+Example C09_delayline_netlist_runs :
+  let h := [(5,1,0); (6,0,0); (7,1,0); (24,1,0); (9,1,1); (10,3,0); (11,1,2)] in
+  forallb (fun cfg : bool * bool * nat => let '(he, hr, delay) := cfg in
+     let D := delayline_design 4 3 2 2 he hr delay in
+     forallb (fun k =>
+        let s := delayline_net_run 4 3 2 2 he hr delay (firstn k h) in
+        let cs := run (delay_m 4 he hr) (delay_init delay) (map (delayline_seen 4 2 2) (firstn k h)) in
+        list_eqb (skipn (S (dl_r he hr)) (vals s)) (map cell_q cs) &&
+        (rd (vals s) (dl_r he hr) =? delay_out 3 cs (dl_a_last 4 (firstn k h))) &&
+        (rd (propagateAll D (vals (poke D s 1%nat 14))) (dl_r he hr) =? delay_out 3 cs 14)) (seq 0 8))
+    (flat_map (fun delay => [(true, true, delay); (true, false, delay); (false, true, delay); (false, false, delay)]) (seq 0 5)) = true /\
+  map (fun k => rd (vals (delayline_net_run 4 3 2 2 true true 2 (firstn k h))) (dl_r true true)) (seq 0 8) = [0; 0; 0; 5; 7; 0; 0; 2] /\
+  map (fun k => skipn 5 (vals (delayline_net_run 4 3 2 2 true true 2 (firstn k h)))) (seq 0 8) =
+    [[0; 0]; [5; 0]; [5; 0]; [7; 5]; [8; 7]; [0; 0]; [10; 0]; [11; 10]].
+Proof. vm_compute. auto. Qed.
+Example C09_delayline_netlist_spec_nonvacuous :
+  0 <= 4 /\ 0 <= 3 /\
+  let h := [(5,1,0); (6,0,0); (7,1,0); (24,1,0)] in
+  run (delay_log true true) [] (map (delayline_seen 4 2 2) h) = [8; 7; 5] /\
+  rd (vals (delayline_net_run 4 3 2 2 true true 2 h)) (dl_r true true) = 7.
+Proof. split; [lia|split; [lia|vm_compute; auto]]. Qed.
+(* the recursive term IS what py/netlist.py printed for live DelayLine objects, delays 0, 1, 2, 3, 5, all port configurations, several
+   widths (pasted dumps, Proofs/C09/NetlistDelayDump.v), including initial leaf states and constructor-time pokes *)
+Example C09_delayline_design_is_dump :
+  delayline_design 4 4 1 1 true true 0 = delayline_dump_4_4_1_1_true_true_0 /\ delayline_design 4 4 1 1 true true 1 = delayline_dump_4_4_1_1_true_true_1 /\
+  delayline_design 4 4 1 1 true true 2 = delayline_dump_4_4_1_1_true_true_2 /\ delayline_design 4 4 1 1 true true 3 = delayline_dump_4_4_1_1_true_true_3 /\
+  delayline_design 4 4 1 1 false false 2 = delayline_dump_4_4_1_1_false_false_2 /\ delayline_design 4 4 1 1 true false 2 = delayline_dump_4_4_1_1_true_false_2 /\
+  delayline_design 4 4 1 1 false true 2 = delayline_dump_4_4_1_1_false_true_2 /\ delayline_design 4 4 1 1 false false 0 = delayline_dump_4_4_1_1_false_false_0 /\
+  delayline_design 3 5 2 3 true true 5 = delayline_dump_3_5_2_3_true_true_5 /\ delayline_design 8 2 2 1 false true 1 = delayline_dump_8_2_2_1_false_true_1 /\
+  delayline_st0 5 = delayline_dump_3_5_2_3_true_true_5_st0 /\ delayline_init_pokes true true 5 = delayline_dump_3_5_2_3_true_true_5_pokes.
+Proof. repeat split; reflexivity. Qed.
+
+
 Print Assumptions C09_reg_refines.
 Print Assumptions C09_reg_value_refines.
 Print Assumptions C09_reg_powerup.
@@ -332,3 +414,9 @@ Print Assumptions C09_treg_netlist_refines.
 Print Assumptions C09_treg_netlist_spec.
 Print Assumptions C09_treg_netlist_wellformed.
 Print Assumptions C09_treg_netlist_settled.
+Print Assumptions C09_delayline_netlist_refines.
+Print Assumptions C09_delayline_netlist_peek.
+Print Assumptions C09_delayline_netlist_spec.
+Print Assumptions C09_delayline_netlist_wellformed.
+Print Assumptions C09_delayline_netlist_settled.
+Print Assumptions C09_delayline_netlist_step_is_clk_cycle.
